@@ -177,6 +177,8 @@ fn world_iter_destroy_symbolic_decisions() {
         world.create::<ArchFoo>((CompA(2), CompB(102))),
     ];
     let z = world.create::<ArchBar>((CompA(3), CompZ));
+    // direct handles minted BEFORE the loop (C09): they must be rejected afterwards iff the loop destroyed something in their archetype
+    let dpre = [world.to_direct(e[0]).unwrap(), world.to_direct(e[1]).unwrap(), world.to_direct(e[2]).unwrap()];
     let d: [u8; 4] = kani::any();
     kani::assume(d[0] < 4 && d[1] < 4 && d[2] < 4 && d[3] < 4);
     let mut visits = [0u8; 4];
@@ -207,6 +209,12 @@ fn world_iter_destroy_symbolic_decisions() {
     }
     let zf = visits[3] == 1 && (d[3] == 1 || d[3] == 3);
     assert!(world.contains(z) == !zf);
+    let mut foo_destroyed = false;
+    for i in 0..3 { if visits[i] == 1 && (d[i] == 1 || d[i] == 3) { foo_destroyed = true; } }
+    for i in 0..3 {
+        // however the loop ended (Continue to the end, Break, BreakDestroy): a removal in ArchFoo invalidates every earlier direct handle
+        assert!(world.contains(dpre[i]) == !foo_destroyed);
+    }
 }
 
 // ---- C02/C06/C11-adjacent (bounded: 3 entities, one removal at a symbolic position): the runtime-borrowed paths
